@@ -52,13 +52,13 @@ def batches(ctx):
             b("keyid", ["keyid"], topos=["line3", "akidtrap"]),
         ]
     return [
-        b("kind", ["kind"], topos=ALL_TOPOS, big=BIG_TOPOS),
-        b("window", ["window"], topos=ALL_TOPOS),
         b("name", ["name"], topos=["line3", "badsig"], big=["cross"]),
-        b("eku", ["eku"], topos=ALL_TOPOS),
         b("ku", ["ku"], topos=ALL_TOPOS + ["cross", "rejoin"]),
-        b("keyid", ["keyid"], topos=ALL_TOPOS),
-    ]
+        b("small topologies", ["kind", "window", "eku", "keyid"], topos=["line3", "rollover", "badsig"]),
+    ] + [b("%s %s" % (mode, t), [mode], topos=[t])
+         # one batch per (dimension, topology): TLC builds and sorts each case set on one thread
+         for t in ["line4", "shared", "loop", "akidtrap"] for mode in ["kind", "window", "eku", "keyid"]
+    ] + [b("kind %s" % t, ["kind"], big=[t]) for t in BIG_TOPOS]
 
 
 def files(ctx, tag):
@@ -68,8 +68,12 @@ def files(ctx, tag):
 def judge(ctx, label, tag, timeout=3000):
     """Run Trace_ChainBuilder on the three files of batch `tag`; returns parsed verdict lines."""
     U, C, O = files(ctx, tag)
+    # the judge wants the universe as ONE JSON object id -> certificate (pure re-formatting of the ndjson file)
+    UM = U[:-len(".ndjson")] + "_map.json"
+    with open(UM, "w") as f:
+        f.write(json.dumps({c["id"]: c for c in read_ndjson(U)}) + "\n")
     r = pkvlib.tlc(ctx, "Trace_ChainBuilder", "ChainBuilder_judge.cfg", workers=1, timeout=timeout, label="judge " + label,
-                   subst={"FU": os.path.basename(U), "FC": os.path.basename(C), "FO": os.path.basename(O)})
+                   subst={"FU": os.path.basename(UM), "FC": os.path.basename(C), "FO": os.path.basename(O)})
     out = r.out
     res = {"rejects": [], "datebad": {"open": [], "closed": []}, "drift": [], "dateok": None, "judged": None}
     for m in re.finditer(r'<<\s*"REJECT",\s*(\d+),\s*"([^"]*)"\s*>>', out):
@@ -314,14 +318,16 @@ def run(ctx):
             return out
         return job
 
-    def random_job():
+    def random_job(k, n, mx):
         # code -> spec: seeded random larger PKIs
-        n, mx = (1200, 9) if ctx.quick else (30000, 12)
-        U, C, O = files(ctx, "rnd")
-        ctx.run(binary, ["random", U, C, str(n), str(mx)])
-        out = process(ctx, binary, "random", "rnd")
-        out.update(cases=n, nontrivial=0, sample=None)
-        return out
+        def job():
+            tag = "rnd%d" % k
+            U, C, O = files(ctx, tag)
+            ctx.run(binary, ["random", U, C, str(n), str(mx)], env={"VERIF_SEED": str(ctx.seed * 1000 + k)})
+            out = process(ctx, binary, "random #%d" % k, tag)
+            out.update(cases=n, nontrivial=0, sample=None)
+            return out
+        return job
 
     def zero_job():
         return zero_time(ctx, binary)
@@ -329,7 +335,11 @@ def run(ctx):
     jobs = [pipeline(100 + k, label, None, mc=(names, keys, m))
             for k, (label, names, keys, m) in enumerate(mc_batches(ctx)) if pkvlib.selected(label)]
     jobs += [pipeline(k, label, subst) for k, (label, subst) in enumerate(batches(ctx)) if pkvlib.selected(label)]
-    jobs += [j for j, label in ((random_job, "random"), (zero_job, "zero-time")) if pkvlib.selected(label)]
+    nrandom = [(0, 1200, 9)] if ctx.quick else [(k, 2500, 12) for k in range(12)]
+    if pkvlib.selected("random"):
+        jobs += [random_job(k, n, mx) for k, n, mx in nrandom]
+    if pkvlib.selected("zero-time"):
+        jobs.append(zero_job)
     results = pkvlib.par(ctx, jobs)
     cands = []
     # the run as a whole must follow ONE end-point convention (the zero-time job has its own, local verdict)
